@@ -72,6 +72,8 @@ type Prop struct {
 	// PreWriteIf: like PreWrite, for the cases it selects (those that make the library start goroutines:
 	// a panic inside such a goroutine cannot be recovered by any caller and ends the process)
 	PreWriteIf func(c any) bool
+	// NoFailedCallsFirst: do not run failedCallsFirst (poison.go) before the cases of this property
+	NoFailedCallsFirst bool
 }
 
 var preWritten bool
@@ -196,6 +198,9 @@ func RunCase(p *Prop, c any) error {
 				os.WriteFile(filepath.Join(dir, "current.json"), out, 0o644)
 			}
 		}
+	}
+	if !p.NoFailedCallsFirst {
+		failedCallsFirst(st)
 	}
 	err := SafeCheck(p, c, st)
 	st.mu.Lock()
